@@ -49,9 +49,9 @@ static double ikAlpha(int k) {
 // tightest accuracy decade used (cost bound)
 static int ikMaxDecade(int k, bool thorough) {
     int d;
-    switch (k) { case IK_RK2: d = 6; break; case IK_RK3: d = 7; break; case IK_RKF: case IK_RKM: d = 8; break;
+    switch (k) { case IK_RK2: d = 5; break; case IK_RK3: d = 6; break; case IK_RKF: case IK_RKM: d = 8; break;
                  case IK_Verlet: case IK_EE: case IK_SEE2: d = 4; break; default: d = 7; }
-    if (thorough && (k == IK_Verlet || k == IK_EE || k == IK_SEE2)) d = 5;
+    if (thorough && (k == IK_Verlet || k == IK_RK2 || k == IK_RK3)) d += 1;
     return d;
 }
 static bool ikIsCPodes(int k) { return k == IK_CPBDF || k == IK_CPAdams; }
@@ -586,6 +586,12 @@ static Trace runEnergy(Ctx& c, const Spec& sp, const RunOpts& o, bool wantMoment
         }
         if (!(std::isfinite(r.ke) && std::isfinite(r.pe) && std::isfinite(r.ediss) && allFinite(s.getY()))) { T.nonFinite = true; return false; }
         T.rec.push_back(r);
+        if (c.args.verbose && c.args.getInt("trace", 0)) {
+            for (auto& tp : b.twoPoints) fprintf(stderr, "   tpdist=%.4g", ((b.m.matter.getMobilizedBody(tp.a).getBodyTransform(s) * tp.s1) - (b.m.matter.getMobilizedBody(tp.b).getBodyTransform(s) * tp.s2)).norm());
+            for (auto& bu : b.bushings) fprintf(stderr, "   bushq1=%.4g", bu.getQ(s)[1]);
+            fprintf(stderr, " q=["); for (int i = 0; i < s.getNQ(); ++i) fprintf(stderr, "%.4g ", s.getQ()[i]); fprintf(stderr, "]\n");
+        }
+        if (c.args.verbose && c.args.getInt("trace", 0)) fprintf(stderr, "  t=%.6f %-13s E=%.9g KE=%.6g PE=%.6g Ediss=%.6g |P|=%.6g |L|=%.6g\n", r.t, skName(kind), r.ke + r.pe, r.ke, r.pe, r.ediss, r.P.norm(), r.L.norm());
         return true;
     });
     return T;
@@ -593,27 +599,32 @@ static Trace runEnergy(Ctx& c, const Spec& sp, const RunOpts& o, bool wantMoment
 
 struct Drift { double a = 0, d = 0, P = 0, L = 0, cInc = 0, Escale = 0, EdScale = 0; double ta = 0, td = 0, tP = 0, tL = 0, tc = 0; };
 static Drift measure(const Trace& T) {
+    // Every state is judged against the energy / momentum scale of the states returned
+    // *before* it (a runaway must not enlarge the scale it is judged by).
     Drift D; const auto& R = T.rec; if (R.empty()) return D;
-    double pemin = R[0].pe, pemax = R[0].pe, kemax = 0, edmax = 0, pS = 0, lS = 0;
-    for (auto& r : R) { pemin = std::min(pemin, r.pe); pemax = std::max(pemax, r.pe); kemax = std::max(kemax, r.ke); edmax = std::max(edmax, std::fabs(r.ediss)); pS = std::max(pS, r.pS); lS = std::max(lS, r.lS); }
-    D.Escale = std::max(std::max(kemax, pemax - pemin), T.Eunit);
-    D.EdScale = std::max(std::max(D.Escale, edmax), 1.0);   // z (dissipated energy) is error controlled relative to max(|z|,1)
+    double pemin = R[0].pe, pemax = R[0].pe, kemax = R[0].ke, edmax = std::fabs(R[0].ediss), pS = R[0].pS, lS = R[0].lS;
     double E0 = R[0].ke + R[0].pe, Z0 = R[0].ediss;
-    for (size_t k = 0; k < R.size(); ++k) {
+    for (size_t k = 1; k < R.size(); ++k) {
         const Rec& r = R[k]; double E = r.ke + r.pe, tf = 1 + r.t;
-        double a = std::fabs(E - E0) / (D.Escale * tf); if (a > D.a) { D.a = a; D.ta = r.t; }
-        double d = std::fabs(E + r.ediss - E0 - Z0) / (D.EdScale * tf); if (d > D.d) { D.d = d; D.td = r.t; }
+        double Es = std::max(std::max(kemax, pemax - pemin), T.Eunit);
+        double Eds = std::max(std::max(Es, edmax), 1.0);   // z (dissipated energy) is error controlled relative to max(|z|,1)
+        double a = std::fabs(E - E0) / (Es * tf); if (a > D.a) { D.a = a; D.ta = r.t; }
+        double d = std::fabs(E + r.ediss - E0 - Z0) / (Eds * tf); if (d > D.d) { D.d = d; D.td = r.t; }
         if (pS > 0) { double p = (r.P - R[0].P).norm() / (pS * tf); if (p > D.P) { D.P = p; D.tP = r.t; } }
         if (lS > 0) { double l = (r.L - R[0].L).norm() / (lS * tf); if (l > D.L) { D.L = l; D.tL = r.t; } }
-        if (k > 0) { double inc = (E - (R[k - 1].ke + R[k - 1].pe)) / D.Escale; if (inc > D.cInc) { D.cInc = inc; D.tc = r.t; } }
+        double inc = (E - (R[k - 1].ke + R[k - 1].pe)) / Es; if (inc > D.cInc) { D.cInc = inc; D.tc = r.t; }
+        pemin = std::min(pemin, r.pe); pemax = std::max(pemax, r.pe); kemax = std::max(kemax, r.ke); edmax = std::max(edmax, std::fabs(r.ediss)); pS = std::max(pS, r.pS); lS = std::max(lS, r.lS);
+        D.Escale = Es; D.EdScale = Eds;
     }
     return D;
 }
 
 static const double K_A = 100, K_B = 100, K_C = 100, K_D = 100;
+static const double TOL_CAP = 0.05;   // a drift above 5% of the energy / momentum scale always triggers the tightened run
 
 static void checkC11(Ctx& c, long idx, Rng& r) {
     const bool thorough = c.args.tier == "thorough";
+    const bool noslip = c.args.getInt("noslip", 0) != 0;
     const int integ = (int)(idx % 9);                 // the nine error-controlled integrators
     const int family = (int)((idx / 9) % 4);          // 0 conservative, 1 free-floating internal, 2 dissipative, 3 bushing-only dissipation
     const int variant = (int)(idx / 36);
@@ -627,7 +638,14 @@ static void checkC11(Ctx& c, long idx, Rng& r) {
     bool wantCons = (variant % 3 == 1) || r.coin(0.15);
     if (wantCons) {
         int nc = r.integer(1, 2);
-        for (int i = 0; i < nc; ++i) { int kind = (i == 0) ? (int)((variant / 3) % C_NWorkless) : r.integer(0, C_NWorkless - 1); genConstraint(sp, ref, r, kind, internalOnly); }
+        for (int i = 0; i < nc; ++i) {
+            int kind = (i == 0) ? (int)((variant / 3) % C_NWorkless) : r.integer(0, C_NWorkless - 1);
+            // NoSlip1D is left out unless --noslip 1: its acceleration equation is not the derivative of its velocity
+            // equation for general geometry (known finding C07 material-point-formulation:NoSlip1D:acceleration), so
+            // the simulated motion leaves the velocity manifold and the projections that bring it back do work.
+            if (kind == C_NoSlip1D && !noslip) kind = C_Rod;
+            genConstraint(sp, ref, r, kind, internalOnly);
+        }
     }
     // ---- forces
     bool dampedFamily = (family == 2) || (family == 3) || (family == 1 && variant % 2 == 1);
@@ -656,9 +674,9 @@ static void checkC11(Ctx& c, long idx, Rng& r) {
     RunOpts o; o.integ = integ;
     int dec = 3 + (int)((variant / 2) % (ikMaxDecade(integ, thorough) - 2));
     static const double mant[] = {1.0, 0.5, 0.2};
-    o.acc = std::pow(10.0, -dec) * mant[r.integer(0, 2)];
+    { double mm = mant[r.integer(0, 2)]; o.acc = std::pow(10.0, -dec) * (dec >= 8 ? 1.0 : mm); }
     o.T = r.uni(1.0, 2.5); o.nReports = r.integer(5, 40); o.returnEvery = true;
-    o.projEvery = r.coin(0.2) ? 1 : -1; o.finalTime = r.coin(0.3);
+    o.projEvery = r.coin(0.2) ? 1 : -1; o.finalTime = r.coin(0.3); o.maxStates = 4000;
     (void)nb;
 
     // ---- rank guard for the constraint set
@@ -672,7 +690,7 @@ static void checkC11(Ctx& c, long idx, Rng& r) {
     char accs[16]; snprintf(accs, sizeof accs, "1e-%d", dec);
     Json wit0 = Json::obj().set("model", sp.toJson()).set("opts", o.toJson());
 
-    Trace T = runEnergy(c, sp, o, internalOnly);
+    Trace T = runEnergy(c, sp, o, internalOnly, (int)c.args.getInt("dropF", -1), (int)c.args.getInt("dropC", -1));   // dropF/dropC: debugging aid only
     c.obs("outcome:" + T.run.outcome + ":" + in);
     if (T.nonFinite) { c.viol("nonfinite:" + in, Json(wit0).set("what", "NaN/Inf in a returned state or its energy").set("t", T.run.tEnd)); return; }
     if (!T.guard.empty()) c.obs("run-cut:" + T.guard);
@@ -686,31 +704,31 @@ static void checkC11(Ctx& c, long idx, Rng& r) {
 
     // two-sided judgement of a drift that should scale with accuracy
     auto twoSided = [&](const std::string& clause, double Dcase, double K, std::function<double(const Drift&)> pick) {
-        double tol1 = K * std::pow(o.acc, alpha);
+        double tol1 = std::min(K * std::pow(o.acc, alpha), TOL_CAP);
         for (int k : kinds) c.cover(in + "/" + clause + "/" + skName(k));
         c.cover(in + "/" + clause + "/" + cell);
         if (Dcase <= tol1) { c.check(clause + ":" + in, Dcase, tol1, nullptr); return; }
         // first bound exceeded: tighten accuracy 100x
-        RunOpts o2 = o; o2.acc = o.acc / 100; o2.maxStates = 400000;
+        RunOpts o2 = o; o2.acc = o.acc / 100; o2.maxStates = 40 * o.maxStates;
         Trace T2 = runEnergy(c, sp, o2, internalOnly);
         if (T2.nonFinite || T2.rec.size() < 3 || T2.run.tEnd < 0.5 * T.run.tEnd) { c.obs("inconclusive:" + clause + ":tightened-run-unusable:" + in); return; }
         double D2 = pick(measure(T2));
-        double tol2 = std::max(K * std::pow(o2.acc, alpha), Dcase / 3);
+        double tol2 = std::max(std::min(K * std::pow(o2.acc, alpha), TOL_CAP), Dcase / 3);
         c.obs("first-bound-exceeded:" + clause + ":" + in);
         if (D2 <= tol2) { c.obs("inconclusive:" + clause + ":drift-shrinks-when-tightened:" + in); c.check(clause + "2:" + in, D2, tol2, nullptr); return; }
         // both fail: attribute (reference integrator; leave-one-out over force elements and constraints)
         std::string who = in, culprit = "none-single";
-        RunOpts oref = o; oref.integ = (integ == IK_RKM) ? IK_RKF : IK_RKM; oref.acc = 1e-7; oref.maxStates = 400000;
+        RunOpts oref = o; oref.integ = (integ == IK_RKM) ? IK_RKF : IK_RKM; oref.acc = 1e-7; oref.maxStates = 40 * o.maxStates;
         Trace Tr = runEnergy(c, sp, oref, internalOnly);
         double Dr = Tr.rec.size() >= 3 ? pick(measure(Tr)) : -1;
         if (Dr > K * std::pow(oref.acc, ikAlpha(oref.integ)) && Dr > Dcase / 10) who = "any-integrator";
-        for (int i = 0; i < (int)sp.forces.size() && culprit == "none-single"; ++i) {
-            Trace Tx = runEnergy(c, sp, o, internalOnly, i, -1);
-            if (Tx.rec.size() >= 3 && pick(measure(Tx)) <= tol1) culprit = sp.forces[i].label();
-        }
         for (int i = 0; i < (int)sp.cons.size() && culprit == "none-single"; ++i) {
             Trace Tx = runEnergy(c, sp, o, internalOnly, -1, i);
             if (Tx.rec.size() >= 3 && pick(measure(Tx)) <= tol1) culprit = cName(sp.cons[i].kind);
+        }
+        for (int i = 0; i < (int)sp.forces.size() && culprit == "none-single"; ++i) {
+            Trace Tx = runEnergy(c, sp, o, internalOnly, i, -1);
+            if (Tx.rec.size() >= 3 && pick(measure(Tx)) <= tol1) culprit = sp.forces[i].label();
         }
         c.check(clause + ":" + who + ":" + culprit, Dcase, tol1, [&] {
             return Json(wit0).set("drift", Dcase).set("bound", tol1).set("drift_at_acc/100", D2).set("bound_at_acc/100", tol2).set("drift_reference_integrator", Dr)
